@@ -811,14 +811,74 @@ pub mod vec {
     }
 
     /// Heap-indirect bounded vector for the recursive AST positions (`Vec<Statement>`, `Vec<Expression>`, `Vec<Variable>` are
-    /// rewritten to `BVec<..>` in the copied sources): same API through Deref to `Vec<T>`.
-    pub struct BVec<T>(Box<Vec<T>>);
+    /// rewritten to `BVec<..>` in the copied sources). The LENGTH is kept inline and the element store is allocated on first
+    /// push: CBMC reads heap objects byte-wise, and with the length on the heap an empty AST looked like one of unknown
+    /// length (measured: RENUM of a token-less line walked every statement kind).
+    pub struct BVec<T> {
+        len: usize,
+        buf: Option<Box<Store<T, VEC>>>,
+    }
     impl<T> BVec<T> {
         pub fn new() -> Self {
-            BVec(Box::new(Vec::new()))
+            BVec { len: 0, buf: None }
         }
         pub fn with_capacity(_n: usize) -> Self {
             Self::new()
+        }
+        #[inline]
+        pub fn len(&self) -> usize {
+            self.len
+        }
+        #[inline]
+        pub fn is_empty(&self) -> bool {
+            self.len == 0
+        }
+        pub fn as_slice(&self) -> &[T] {
+            match &self.buf {
+                Some(b) if self.len > 0 => unsafe { b.slice(self.len) },
+                _ => &[],
+            }
+        }
+        pub fn push(&mut self, v: T) {
+            if self.len >= VEC {
+                capacity_exceeded();
+            }
+            if self.buf.is_none() {
+                self.buf = Some(Box::new(Store::new()));
+            }
+            let len = self.len;
+            if let Some(b) = &mut self.buf {
+                unsafe { b.write(len, v) };
+            }
+            self.len += 1;
+        }
+        pub fn pop(&mut self) -> Option<T> {
+            if self.len == 0 {
+                return None;
+            }
+            self.len -= 1;
+            let len = self.len;
+            match &self.buf {
+                Some(b) => Some(unsafe { b.read(len) }),
+                None => None,
+            }
+        }
+        pub fn iter(&self) -> core::slice::Iter<'_, T> {
+            self.as_slice().iter()
+        }
+        pub fn clear(&mut self) {
+            while let Some(v) = self.pop() {
+                drop(v);
+            }
+        }
+    }
+    impl<T> Drop for BVec<T> {
+        fn drop(&mut self) {
+            if core::mem::needs_drop::<T>() {
+                while let Some(v) = self.pop() {
+                    drop(v);
+                }
+            }
         }
     }
     impl<T> Default for BVec<T> {
@@ -827,29 +887,39 @@ pub mod vec {
         }
     }
     impl<T> core::ops::Deref for BVec<T> {
-        type Target = Vec<T>;
-        fn deref(&self) -> &Vec<T> {
-            &self.0
-        }
-    }
-    impl<T> core::ops::DerefMut for BVec<T> {
-        fn deref_mut(&mut self) -> &mut Vec<T> {
-            &mut self.0
+        type Target = [T];
+        fn deref(&self) -> &[T] {
+            self.as_slice()
         }
     }
     impl<T: Clone> Clone for BVec<T> {
         fn clone(&self) -> Self {
-            BVec(Box::new((*self.0).clone()))
+            let mut out = BVec::new();
+            for x in self.as_slice() {
+                out.push(x.clone());
+            }
+            out
         }
     }
     impl<T: PartialEq> PartialEq for BVec<T> {
         fn eq(&self, other: &Self) -> bool {
-            *self.0 == *other.0
+            if self.len != other.len {
+                return false;
+            }
+            let (a, b) = (self.as_slice(), other.as_slice());
+            let mut i = 0;
+            while i < self.len {
+                if a[i] != b[i] {
+                    return false;
+                }
+                i += 1;
+            }
+            true
         }
     }
     impl<T: core::fmt::Debug> core::fmt::Debug for BVec<T> {
         fn fmt(&self, f: &mut core::fmt::Formatter<'_>) -> core::fmt::Result {
-            core::fmt::Debug::fmt(&*self.0, f)
+            f.debug_list().entries(self.as_slice().iter()).finish()
         }
     }
     impl<T> core::iter::FromIterator<T> for BVec<T> {
@@ -865,14 +935,43 @@ pub mod vec {
         type Item = &'a T;
         type IntoIter = core::slice::Iter<'a, T>;
         fn into_iter(self) -> Self::IntoIter {
-            self.0.as_slice().iter()
+            self.as_slice().iter()
+        }
+    }
+    /// Owning iterator of a `BVec` (front to back).
+    pub struct BIntoIter<T> {
+        v: BVec<T>,
+        front: usize,
+    }
+    impl<T> Iterator for BIntoIter<T> {
+        type Item = T;
+        fn next(&mut self) -> Option<T> {
+            if self.front >= self.v.len {
+                return None;
+            }
+            let i = self.front;
+            self.front += 1;
+            match &self.v.buf {
+                Some(b) => Some(unsafe { b.read(i) }),
+                None => None,
+            }
+        }
+    }
+    impl<T> Drop for BIntoIter<T> {
+        fn drop(&mut self) {
+            if core::mem::needs_drop::<T>() {
+                while let Some(v) = self.next() {
+                    drop(v);
+                }
+            }
+            self.v.len = 0;
         }
     }
     impl<T> IntoIterator for BVec<T> {
         type Item = T;
-        type IntoIter = Drain<'static, T>;
+        type IntoIter = BIntoIter<T>;
         fn into_iter(self) -> Self::IntoIter {
-            (*self.0).into_iter()
+            BIntoIter { v: self, front: 0 }
         }
     }
 
@@ -1018,37 +1117,76 @@ pub mod collections {
             }
             None
         }
-        fn get<Q: ?Sized + PartialEq>(&self, k: &Q) -> Option<&V>
-        where
-            K: Borrow<Q>,
-        {
+        /// Reference to the occupied slot `at`. The result is built as a chain over the OCCUPIED slots only, starting from a valid
+        /// fallback (the first occupied slot): a reference that may also be null / point into an empty slot makes every later read
+        /// through it partly nondeterministic for CBMC (measured: the parser then "saw" tokens in a token-less line).
+        fn pick(&self, at: usize) -> &(K, V) {
+            let mut out: Option<&(K, V)> = None;
             let mut i = 0;
             while i < MAP {
                 if let Some(e) = &self.s[i] {
-                    if e.0.borrow() == k {
-                        return Some(&e.1);
+                    if out.is_none() || i == at {
+                        out = Some(e);
                     }
                 }
                 i += 1;
             }
-            None
+            match out {
+                Some(e) => e,
+                None => unreachable!("pick on an empty map"),
+            }
+        }
+        fn pick_mut(&mut self, at: usize) -> &mut (K, V) {
+            let mut out: *mut (K, V) = core::ptr::null_mut();
+            let mut i = 0;
+            while i < MAP {
+                if let Some(e) = &mut self.s[i] {
+                    if out.is_null() || i == at {
+                        out = e as *mut (K, V);
+                    }
+                }
+                i += 1;
+            }
+            assert!(!out.is_null());
+            unsafe { &mut *out }
+        }
+        fn find<Q: ?Sized + PartialEq>(&self, k: &Q) -> usize
+        where
+            K: Borrow<Q>,
+        {
+            let mut at = MAP;
+            let mut i = 0;
+            while i < MAP {
+                if let Some(e) = &self.s[i] {
+                    if at == MAP && e.0.borrow() == k {
+                        at = i;
+                    }
+                }
+                i += 1;
+            }
+            at
+        }
+        fn get<Q: ?Sized + PartialEq>(&self, k: &Q) -> Option<&V>
+        where
+            K: Borrow<Q>,
+        {
+            let at = self.find(k);
+            if at == MAP {
+                None
+            } else {
+                Some(&self.pick(at).1)
+            }
         }
         fn get_mut<Q: ?Sized + PartialEq>(&mut self, k: &Q) -> Option<&mut V>
         where
             K: Borrow<Q>,
         {
-            let mut i = 0;
-            while i < MAP {
-                let hit = match &self.s[i] {
-                    Some(e) => e.0.borrow() == k,
-                    None => false,
-                };
-                if hit {
-                    return self.s[i].as_mut().map(|e| &mut e.1);
-                }
-                i += 1;
+            let at = self.find(k);
+            if at == MAP {
+                None
+            } else {
+                Some(&mut self.pick_mut(at).1)
             }
-            None
         }
         fn insert(&mut self, k: K, v: V) -> Option<V>
         where
@@ -1285,6 +1423,9 @@ pub mod collections {
     /// `BTreeMap` model: unordered slots, ordered iteration by on-demand selection of the next key.
     pub struct BTreeMap<K, V> {
         t: Slots<K, V>,
+        /// true = the occupied slots are a prefix and their keys ascend in slot order; unbounded iteration is then positional
+        /// (concrete slot references instead of a selection the solver has to resolve). Maintained conservatively.
+        sorted: bool,
     }
     /// Borrowing ordered iterator over the keys inside (lo, hi), both ends movable (`DoubleEndedIterator`).
     pub struct Iter<'a, K, V> {
@@ -1294,6 +1435,10 @@ pub mod collections {
         hi: Option<&'a K>,
         start: core::ops::Bound<K>,
         end: core::ops::Bound<K>,
+        /// positional mode (map known to be physically sorted, no range bounds): next slot from the front / one past the back
+        positional: bool,
+        f: usize,
+        b: usize,
     }
     impl<'a, K: Ord, V> Iter<'a, K, V> {
         fn admissible(&self, k: &K) -> bool {
@@ -1317,59 +1462,93 @@ pub mod collections {
             above && below
         }
     }
-    impl<'a, K: Ord, V> Iterator for Iter<'a, K, V> {
-        type Item = (&'a K, &'a V);
-        fn next(&mut self) -> Option<Self::Item> {
-            let mut best: Option<&'a (K, V)> = None;
+    impl<'a, K: Ord, V> Iter<'a, K, V> {
+        /// Index of the admissible slot with the smallest (`front`) / largest key, MAP if none. Decided by comparing keys of concrete
+        /// slot pairs — no accumulator that points at a "current best" entry.
+        fn select(&self, front: bool) -> usize {
+            let mut at = MAP;
             let mut i = 0;
             while i < MAP {
                 if let Some(e) = &self.s[i] {
                     if self.admissible(&e.0) {
-                        let better = match best {
-                            Some(b) => e.0 < b.0,
-                            None => true,
-                        };
-                        if better {
-                            best = Some(e);
+                        let mut extreme = true;
+                        let mut j = 0;
+                        while j < MAP {
+                            if j != i {
+                                if let Some(o) = &self.s[j] {
+                                    if self.admissible(&o.0) && (if front { o.0 < e.0 } else { o.0 > e.0 }) {
+                                        extreme = false;
+                                    }
+                                }
+                            }
+                            j += 1;
+                        }
+                        if extreme && at == MAP {
+                            at = i;
                         }
                     }
                 }
                 i += 1;
             }
-            match best {
-                Some(e) => {
-                    self.lo = Some(&e.0);
-                    Some((&e.0, &e.1))
+            at
+        }
+        fn pick(&self, at: usize) -> &'a (K, V) {
+            let mut out: Option<&'a (K, V)> = None;
+            let mut i = 0;
+            while i < MAP {
+                if let Some(e) = &self.s[i] {
+                    if out.is_none() || i == at {
+                        out = Some(e);
+                    }
                 }
-                None => None,
+                i += 1;
             }
+            match out {
+                Some(e) => e,
+                None => unreachable!("pick on an empty map"),
+            }
+        }
+    }
+    impl<'a, K: Ord, V> Iterator for Iter<'a, K, V> {
+        type Item = (&'a K, &'a V);
+        fn next(&mut self) -> Option<Self::Item> {
+            if self.positional {
+                if self.f < self.b {
+                    let i = self.f;
+                    self.f += 1;
+                    if let Some(e) = &self.s[i] {
+                        return Some((&e.0, &e.1));
+                    }
+                }
+                return None;
+            }
+            let at = self.select(true);
+            if at == MAP {
+                return None;
+            }
+            let e = self.pick(at);
+            self.lo = Some(&e.0);
+            Some((&e.0, &e.1))
         }
     }
     impl<'a, K: Ord, V> DoubleEndedIterator for Iter<'a, K, V> {
         fn next_back(&mut self) -> Option<Self::Item> {
-            let mut best: Option<&'a (K, V)> = None;
-            let mut i = 0;
-            while i < MAP {
-                if let Some(e) = &self.s[i] {
-                    if self.admissible(&e.0) {
-                        let better = match best {
-                            Some(b) => e.0 > b.0,
-                            None => true,
-                        };
-                        if better {
-                            best = Some(e);
-                        }
+            if self.positional {
+                if self.f < self.b {
+                    self.b -= 1;
+                    if let Some(e) = &self.s[self.b] {
+                        return Some((&e.0, &e.1));
                     }
                 }
-                i += 1;
+                return None;
             }
-            match best {
-                Some(e) => {
-                    self.hi = Some(&e.0);
-                    Some((&e.0, &e.1))
-                }
-                None => None,
+            let at = self.select(false);
+            if at == MAP {
+                return None;
             }
+            let e = self.pick(at);
+            self.hi = Some(&e.0);
+            Some((&e.0, &e.1))
         }
     }
     /// Owning ordered iterator (ascending keys).
@@ -1424,7 +1603,7 @@ pub mod collections {
     }
     impl<K: Ord, V> BTreeMap<K, V> {
         pub fn new() -> Self {
-            BTreeMap { t: Slots::new() }
+            BTreeMap { t: Slots::new(), sorted: true }
         }
         pub fn len(&self) -> usize {
             self.t.len()
@@ -1433,7 +1612,8 @@ pub mod collections {
             self.t.len() == 0
         }
         pub fn clear(&mut self) {
-            self.t.clear()
+            self.t.clear();
+            self.sorted = true;
         }
         pub fn get<Q: ?Sized + Ord>(&self, k: &Q) -> Option<&V>
         where
@@ -1454,16 +1634,39 @@ pub mod collections {
             self.t.position(k).is_some()
         }
         pub fn insert(&mut self, k: K, v: V) -> Option<V> {
+            // stays "sorted" only if the key replaces an entry or is appended after the last one with a larger key
+            let n = self.t.len();
+            let replaces = self.t.find(&k) != MAP;
+            let appends = self.sorted
+                && (n == 0
+                    || match &self.t.s[if n == 0 { 0 } else { n - 1 }] {
+                        Some(e) => e.0 < k,
+                        None => false,
+                    });
+            self.sorted = self.sorted && (replaces || appends);
             self.t.insert(k, v)
         }
         pub fn remove<Q: ?Sized + Ord>(&mut self, k: &Q) -> Option<V>
         where
             K: Borrow<Q>,
         {
+            let n = self.t.len();
+            let at = self.t.find(k);
+            // removing anything but the last entry leaves a hole
+            self.sorted = self.sorted && (at == MAP || at + 1 == n);
             self.t.remove(k)
         }
         pub fn iter(&self) -> Iter<'_, K, V> {
-            Iter { s: &self.t.s, lo: None, hi: None, start: core::ops::Bound::Unbounded, end: core::ops::Bound::Unbounded }
+            Iter {
+                s: &self.t.s,
+                lo: None,
+                hi: None,
+                start: core::ops::Bound::Unbounded,
+                end: core::ops::Bound::Unbounded,
+                positional: self.sorted,
+                f: 0,
+                b: if self.sorted { self.t.len() } else { 0 },
+            }
         }
         pub fn values(&self) -> btree_map::Values<'_, K, V> {
             btree_map::Values { it: self.iter() }
@@ -1494,7 +1697,7 @@ pub mod collections {
                 Excluded(b) => Excluded(b.clone()),
                 Unbounded => Unbounded,
             };
-            Iter { s: &self.t.s, lo: None, hi: None, start, end }
+            Iter { s: &self.t.s, lo: None, hi: None, start, end, positional: false, f: 0, b: 0 }
         }
         /// Returns everything at or after `k`, keeps the rest.
         pub fn split_off<Q: ?Sized + Ord>(&mut self, k: &Q) -> BTreeMap<K, V>
@@ -1502,6 +1705,8 @@ pub mod collections {
             K: Borrow<Q>,
         {
             let mut out = BTreeMap::new();
+            out.sorted = false;
+            self.sorted = false;
             let mut i = 0;
             while i < MAP {
                 let moves = match &self.t.s[i] {
@@ -1517,6 +1722,8 @@ pub mod collections {
         }
         /// Harness set-up only: store an entry whose key the caller guarantees to be absent (next free slot, concrete shape).
         pub fn harness_push_ascending(&mut self, k: K, v: V) {
+            #[cfg(not(kani))]
+            assert!(self.sorted && self.iter().next_back().map(|e| e.0 < &k).unwrap_or(true));
             let mut j = 0;
             while j < MAP {
                 if self.t.s[j].is_none() {
@@ -1530,12 +1737,12 @@ pub mod collections {
     }
     impl<K, V> Default for BTreeMap<K, V> {
         fn default() -> Self {
-            BTreeMap { t: Slots::new() }
+            BTreeMap { t: Slots::new(), sorted: true }
         }
     }
     impl<K: Clone, V: Clone> Clone for BTreeMap<K, V> {
         fn clone(&self) -> Self {
-            BTreeMap { t: self.t.clone() }
+            BTreeMap { t: self.t.clone(), sorted: self.sorted }
         }
     }
     impl<K: core::fmt::Debug + Ord, V: core::fmt::Debug> core::fmt::Debug for BTreeMap<K, V> {
